@@ -1,6 +1,7 @@
 # C16 job table (see DESIGN.md section 3/C16): Xml::parse total + safe + failure position inside the text; comments wherever white space is allowed;
 # toString -> parse identity; copies of Xml::Variant values independent of their source
 from .jobs import job, Q, T
+from .core import ASAN_OPTIONS
 
 PROBES = ['Xml.parse/comment/memory-growth',
           'Xml.parse/processing-instruction/error-position-outside-text',
@@ -17,8 +18,11 @@ SPEC = dict(
          'mut: 1-4 mutations of a valid or corpus document; deep: 1-1000 nested elements, balanced, truncated, with attributes/text/line breaks; roundtrip: one random element tree '
          '(attribute values and non-blank, non-adjacent text over all bytes 1..255 with leading/trailing white space) -> toString -> parse -> strict structural comparison; '
          'variant: one history of 10-120 operations on up to 12 Xml::Variant handles (construct, copy-construct, copy-assign, self-assign, assign own child, assign text, mutate through toElement '
-         'in the non-element / unshared / shared state, copy a whole element and mutate the copy, destroy) with every handle compared with its own model after every operation). '
-         'Every text handed to the parser lives in a heap block of exactly len+1 bytes; every call runs under a 5 s CPU budget and a 64 MiB live-heap growth cap (ASan malloc hook); '
+         'in the non-element / unshared / shared state, copy a whole element and mutate the copy, destroy) with every handle compared with its own model after every operation); '
+         'wide: one document or tree with 4,200-9,000 (every 4th round 12,000-20,000) elements in one of 8 shapes (flat empty elements as <x/>, <x />, <x></x>, rows x empty cells, tree built through '
+         'the Element interface, siblings with text/child content, nesting 2-7 with mostly content-less leaves, many generated elements of the gen grammar below one root, and on ONE Parser object '
+         'a 1000-deep document, a truncated one, the flat document, the deep one again) -> accepted, same tree as the model, toString -> parse -> same tree, 3 random prefixes). '
+         'Every text handed to the parser lives in a heap block of exactly len+1 bytes; every call runs under a 5 s CPU budget and a 64 MiB live-heap growth cap (ASan malloc hook; wide: plus 16 KiB per element of the document); '
          'on failure the reported (line, column) must designate a byte, line end or text end. distinct = hash of index / model tree / operation sequence; non-trivial = >= 2 bytes, >= 3 nodes, '
          'or (variant) at least one shared payload that was then modified through one handle.',
     assumptions=['ASan/UBSan/LSan; inputs in exactly-sized heap blocks; heap cap measured with __sanitizer_get_current_allocated_bytes from __sanitizer_malloc_hook (RLIMIT_AS is unusable under ASan)',
@@ -36,13 +40,19 @@ SPEC = dict(
         job('deep', 'h_xml', 'deep', cases={Q: 48, T: 480}, procs=16),
         job('roundtrip', 'h_xml', 'roundtrip', cases={Q: 8000, T: 200000}, procs=16),
         job('variant', 'h_xml', 'variant', cases={Q: 8000, T: 200000}, procs=16),
+        job('wide', 'h_xml', 'wide', cases={Q: 64, T: 960}, procs=16,
+            env={'ASAN_OPTIONS': ASAN_OPTIONS + ':quarantine_size_mb=32'}),   # trees of 5 KiB blocks: the default 256 MiB quarantine only costs page faults here
     ],
     floors={Q: dict(parses=500000, positions_checked=400000, prefix_parses=100000, mutation_parses=30000, roundtrips=8000, rt_bytes_compared=200000, rt_texts_with_leading_whitespace=1000,
                     valid_documents_compared=1000, value_nodes_compared=10000, comments_next_to_text=1000, comments_inside_tags=500, documents_with_processing_instruction=300,
                     deep_parses=48, deep_roundtrips=10, max_nesting_depth=1000, variant_ops=200000, op_copy_assign=10000, op_mutate_shared_element=3000, op_assign_own_child=500,
-                    op_element_copy=1000, malloc_hook_calls=1000000, **{'set:error_messages': 7, 'set:rt_char_classes': 11, 'set:rt_byte_values': 255, 'set:toElement_states': 3}),
+                    op_element_copy=1000, malloc_hook_calls=1000000, wide_cases=64, wide_documents_compared=60, wide_roundtrips=48, wide_trees_built=8, reused_parser_sequences=8,
+                    wide_nodes_compared=800000, wide_elements_without_content=250000, max_elements_without_content_in_one_document=12000, max_siblings_in_one_element=12000,
+                    **{'set:wide_patterns': 8, 'set:error_messages': 7, 'set:rt_char_classes': 11, 'set:rt_byte_values': 255, 'set:toElement_states': 3}),
             T: dict(parses=12000000, positions_checked=10000000, prefix_parses=3000000, mutation_parses=900000, roundtrips=200000, rt_bytes_compared=5000000, rt_texts_with_leading_whitespace=30000,
                     valid_documents_compared=30000, value_nodes_compared=400000, comments_next_to_text=20000, comments_inside_tags=10000, documents_with_processing_instruction=5000,
                     deep_parses=480, deep_roundtrips=100, max_nesting_depth=1000, variant_ops=5000000, op_copy_assign=250000, op_mutate_shared_element=75000, op_assign_own_child=10000,
-                    op_element_copy=25000, malloc_hook_calls=10000000, **{'set:error_messages': 7, 'set:rt_char_classes': 11, 'set:rt_byte_values': 255, 'set:toElement_states': 3})},
+                    op_element_copy=25000, malloc_hook_calls=10000000, wide_cases=960, wide_documents_compared=900, wide_roundtrips=720, wide_trees_built=120, reused_parser_sequences=120,
+                    wide_nodes_compared=12000000, wide_elements_without_content=4000000, max_elements_without_content_in_one_document=18000, max_siblings_in_one_element=18000,
+                    **{'set:wide_patterns': 8, 'set:error_messages': 7, 'set:rt_char_classes': 11, 'set:rt_byte_values': 255, 'set:toElement_states': 3})},
 )
